@@ -176,6 +176,13 @@ func cmdDev(args []string) int {
 		dischargeAll(obs, cfg)
 		n, ok := 0, 0
 		for _, o := range obs {
+			if o.Canary {
+				if o.Status == "unsat" {
+					fmt.Println("  VACUOUS:", o.Name)
+					rc = 1
+				}
+				continue
+			}
 			n++
 			if o.Discharged() {
 				ok++
